@@ -2,7 +2,8 @@
 usage: worker.py <workdir>   (case JSON on stdin)
 
 A case may carry a `history`: other scoring cases that are run first IN THE SAME PROCESS (their results are discarded); the target case must score the
-same whatever ran before it.  Around every fit and every score call (target and history) the process-global state that scoring has no business changing
+same whatever ran before it.  A case (target or history) that carries a `share_key` is handed the ONE utility object registered under that key in this
+process (SHARED) instead of a fresh one: fresh importance objects, same utility object.  Around every fit and every score call (target and history) the process-global state that scoring has no business changing
 (props.common.global_state: numpy's floating-point error mode and callback, warnings.filters, os.environ) is snapshotted; a change is appended to
 STATE_CHANGES as {call, case, changed}; LOG lists what was scored in this process so far."""
 import json
@@ -15,6 +16,7 @@ sys.path.insert(0, HERE)
 
 STATE_CHANGES = []
 LOG = []          # one line per scoring run in this process, in order (what ran before a given scoring)
+SHARED = {}       # share_key -> the utility OBJECT every scoring carrying that key is handed in this process (fresh importance objects, one utility)
 
 
 def build_and_score(I, case):
@@ -30,15 +32,11 @@ def build_and_score(I, case):
     return score_one(I, {k: v for k, v in case.items() if k not in ("history", "scramble")})
 
 
-def score_one(I, case):
+def make_utility(I, case):
+    """fresh utility object (and fresh model) described by the case fields `model`, `utility`, `joint`"""
     import numpy as np
     from sklearn.neighbors import KNeighborsClassifier
     from sklearn.linear_model import LogisticRegression
-    from props.common import global_state, global_state_diff
-    X = np.array(case["X"], dtype=float)
-    y = np.array(case["y"])
-    Xv = np.array(case["Xv"], dtype=float)
-    yv = np.array(case["yv"])
     if case["model"] == "knn":
         model = KNeighborsClassifier(1)
     elif case["model"] == "rtree":
@@ -77,6 +75,28 @@ def score_one(I, case):
     util = U.SklearnModelRocAuc(model) if case.get("utility") == "rocauc" else U.SklearnModelAccuracy(model)
     if case.get("joint"):
         util = U.JointUtility(util, U.SklearnModelAccuracy(KNeighborsClassifier(1)), weights=[0.75, -0.5])
+    return util
+
+
+def utility_for(I, case):
+    """the utility object a scoring of `case` is handed: a fresh one, or - when the case carries a `share_key` - the ONE object registered under that key in
+    this process (created on first use from the case's model/utility/joint fields; every case carrying the key has the same fields)"""
+    key = case.get("share_key")
+    if key is None:
+        return make_utility(I, case)
+    if key not in SHARED:
+        SHARED[key] = make_utility(I, case)
+    return SHARED[key]
+
+
+def score_one(I, case):
+    import numpy as np
+    from props.common import global_state, global_state_diff
+    X = np.array(case["X"], dtype=float)
+    y = np.array(case["y"])
+    Xv = np.array(case["Xv"], dtype=float)
+    yv = np.array(case["yv"])
+    util = utility_for(I, case)
     prov = None
     if case.get("groups") is not None:
         prov = np.array(case["groups"])
@@ -90,7 +110,8 @@ def score_one(I, case):
         from props.mcutil import RecordingRandomState
         rec = RecordingRandomState(imp.randomstate, case.get("forced"))
         imp.randomstate = rec
-    LOG.append("%s/%s/%s%s n=%d m=%d" % (case["method"], case.get("utility", "accuracy"), case["model"], "/joint" if case.get("joint") else "", len(y), len(yv)))
+    LOG.append("%s/%s/%s%s%s n=%d m=%d" % (case["method"], case.get("utility", "accuracy"), case["model"], "/joint" if case.get("joint") else "",
+                                         "/shared-utility" if case.get("share_key") is not None else "", len(y), len(yv)))
     g0 = global_state()
     imp.fit(X, y, provenance=prov)
     g1 = global_state()
